@@ -9,6 +9,7 @@ Contents
 Recording
     Recorder                       ordered log of what the loop did (starts, callback events, criterion calls, ends)
     peek_loop_state(ctx)           read ledger / n_generations / terminate out of the callbacks' closure cells
+    RunawayLoop                    raised by instrumented operators beyond max_starts applications (endless loop guard)
     instrument_solver(solver, rec) rebind apply_operator / get_n_expected_circuit_evaluations on the operator
                                    INSTANCES of a real solver and wrap its criterion, so a real EVQE run is recorded
 Scripted run (operators that replay a script through the real OperatorContext callbacks)
@@ -268,10 +269,18 @@ class CriterionTap(EvolvingAnsatzMinimumEigensolverBaseTerminationCriterion):
         return b
 
 
-def instrument_solver(solver: EvolvingAnsatzMinimumEigensolver, rec: Recorder, registry: Optional[Registry] = None) -> Registry:
+class RunawayLoop(Exception):
+    """Raised by an instrumented operator when a recorded solve has started more applications than its cap: the loop of
+    the implementation does not terminate (keeps a check finite; reported as a violation by the caller)."""
+
+
+def instrument_solver(solver: EvolvingAnsatzMinimumEigensolver, rec: Recorder, registry: Optional[Registry] = None,
+                      max_starts: Optional[int] = None) -> Registry:
     """Make a REAL solver record its run: for every operator instance in solver.configuration.evolutionary_operators the
     bound methods `apply_operator` and `get_n_expected_circuit_evaluations` are shadowed by instance attributes that
     log and delegate (the class and the source are untouched); the termination criterion, if any, is wrapped.
+    max_starts: cap on the number of apply_operator calls per recorded solve (rec.reset() starts a new count); the call
+    beyond it raises RunawayLoop instead of running the operator.
     Returns the Registry that numbers results / individuals / populations of the run."""
     registry = registry or Registry()
     for k, op in enumerate(solver.configuration.evolutionary_operators):
@@ -286,6 +295,9 @@ def instrument_solver(solver: EvolvingAnsatzMinimumEigensolver, rec: Recorder, r
         def apply(population, operator_context, _k=k, _real=real_apply):
             if rec.evaluator is None:
                 rec.evaluator = operator_context.circuit_evaluator
+            if max_starts is not None and sum(1 for it in rec.items if it[0] == "start") >= max_starts:
+                rec.add("raise", _k, "RunawayLoop")
+                raise RunawayLoop(f"more than {max_starts} operator applications in one solve")
             st = peek_loop_state(operator_context)
             rec.add("start", _k, registry.population_id(population), st["ledger"], st["n_generations"], rec.last_estimate.get(_k))
             tap = _ContextTap(operator_context, rec, registry)
